@@ -82,7 +82,7 @@ PROPS = {
           "an evaluation is one epoch call or one proposal; non-trivial = epoch at/after the start epoch; distinct = distinct (history, op) lines",
   "trusted_base": ["cosmos-sdk bank/distribution keepers (modelled as ledgers)", "x/incentives reduced to: which gauges exist / are perpetual, AddToGaugeRewards = bank send + gauge coins (observed per gauge)"],
   "assumptions": ["the minted denom is distributable in x/incentives' sense (on mainnet it is the base denom; the test chain's `stake` gets a protorev route as the module's own tests do)",
-                  "FALSE on the code (witness theorems + known findings F46-F48): AllocateAsset forwards everything - truncation dust stays in the pool-incentives module account and is "
+                  "FALSE on the code (witness theorems + known findings F50-F52): AllocateAsset forwards everything - truncation dust stays in the pool-incentives module account and is "
                   "re-allocated next epoch; the weight ratio is rounded to 18 decimals before the multiplication; rounded ratios adding up to more than one make the hook fail for assets >= ~1e18",
                   "a failing mint hook (panic or error, caught by the epochs hook wrapper) from the start epoch on is judged a failing input of the property (epoch:hook-failed:<class>)"],
   "explanation": "theorems: allocation sums to the minted amount with truncated proportions and an empty mint account, reported-supply delta formula, "
